@@ -348,6 +348,20 @@ func c01Check(c C01Case, cx *h.Ctx) *h.Failure {
 			all.Parts = append(all.Parts, exact.MustFromModel(x).Parts...)
 			lst = append(lst, x.ToGeom())
 		}
+		// sometimes a long list: 14..45 further single-point operands, so that no operand of a list longer than any
+		// internal batch size may be lost
+		if n := len(c.A.String()) % 4; n == 0 {
+			np := 14 + (len(c.B.String())*7)%32
+			for i := 0; i < np; i++ {
+				pm := gm.G{T: gm.Point, Co: gm.Fs(float64(900+(i%10)*11), float64(-950+(i/10)*13))}
+				all.Parts = append(all.Parts, exact.MustFromModel(pm).Parts...)
+				lst = append(lst, pm.ToGeom())
+			}
+			if len(c.B.String())%2 == 0 { // the real operands last
+				lst = append(lst[2+len(c.Extra):], lst[:2+len(c.Extra)]...)
+			}
+			cx.Class("unionmany-long-list")
+		}
 		aov := exact.NewOverlay(all, exact.Geom{})
 		if pairStrict(aov.Ar) {
 			res, err := geom.UnionMany(lst)
